@@ -257,6 +257,14 @@ def _explore(ctx, rng, count):
 
 
 def replay(ctx, obj):
+    if obj.get("kind") == "shifted":
+        cuts = obj.get("cuts") or []
+        cuts = {v: ([int(c) for c in cs] if v.startswith("@") else [Fraction(c) for c in cs]) for v, cs in cuts.items()} \
+            if isinstance(cuts, dict) else [Fraction(c) for c in cuts]
+        v = check_shifted(Ctx(ctx.id, ctx.tier, ctx.seed), F.from_proto(obj["formula"]), D.sig_of_rep(obj["signals"]), cuts,
+                          bool(obj.get("pastify")))
+        return (v is None), (v.what if v else "the chunked run on the shifted signals agrees with the run fed in one update and "
+                                              "with the offline robustness")
     if obj.get("kind") == "pastified":
         cuts = obj.get("cuts") or []
         cuts = {v: ([int(c) for c in cs] if v.startswith("@") else [Fraction(c) for c in cs]) for v, cs in cuts.items()} \
@@ -453,12 +461,272 @@ def pastified_stream(ctx, rng, count):
                     return
 
 
+# ---------------------------------------------------------------------------------------------------------------------------
+# on-c/shifted: the same shapes on signals whose time stamps are LARGE (seconds since the epoch, as a ROS bag or time.time()
+# stamps them).  Every other stream of C05 starts its signals at 0 and ends them below 10: whatever depends on the magnitude of
+# the stamps - a tolerance where the code compares two stamps, a loss of precision in t - b - stays out of reach there.
+# All stamps are SHIFT + k/8 and all bounds multiples of 1/4: with SHIFT = 2^30 every number the monitors can form is an exact
+# double (2^30 * 8 < 2^53), so the judgement is still exact.
+# Judged by what the property states, on the implementation alone (the Lean model and the mirror are about signals that start
+# at 0, F37): non-decreasing stamps; the chunked run against the run fed in ONE update at every instant both cover; the run
+# against the dense OFFLINE monitor of the same specification on the same shifted signals (h later after pastify) at every
+# instant it covers - the last one only where every bounded PAST operator has lower bound 0 (`offline_comparable`): for a
+# positive lower bound a the offline operator pads [0, first stamp + a) with -+inf instead of leaving it undefined (F37,
+# known, C04) and an operator above it reads the padding, while the online operation starts at first stamp + a.
+# Left out (SHIFTED_ALIGNED_ONLY): specifications in which the two operand streams of an operation start at different instants
+# (a bounded past operator with a positive lower bound - written, or the once[h,h] the pastifier inserts - next to an operand
+# that starts with the input).  On signals starting at 0 that cannot happen (the bounded operations take 0 as the start, F37);
+# on signals starting later, case 1 of the online intersection left the float nan as pending sample: the operation returned
+# [nan] and the next update() raised TypeError when the operands came at different paces in several updates (repaired in /repo
+# by 29f12b4; trees older than that commit still raise).  Witness: out = (y >= once[0.5,1.5](x <= 2.0)),
+# x = (5,1)(5.5,1)(5.625,0)(6.25,1), y = (5,0)(5.25,-0.5)(6.25,4), updates cut at 5.25, 5.5, 5.625, 6.25.
+# ---------------------------------------------------------------------------------------------------------------------------
+SHIFT = Fraction(2 ** 30)
+SHIFTED_ALIGNED_ONLY = True
+
+
+def shift_signals(sig, by=SHIFT):
+    return {v: [(t + by, x) for (t, x) in s] for v, s in sig.items()}
+
+
+def offline_comparable(f):
+    """The offline monitor is a reference on signals that do not start at 0 only when no bounded past operator has a positive
+    lower bound (F37)."""
+    return not has(f, lambda g: (g[0] == "tb1" and g[1] in ("once", "hist") and g[2] > 0) or (g[0] == "tb2" and g[2] > 0))
+
+
+def py_horizon(f):
+    """Horizon of a (sub)formula as rtamt/pastifier/stl/horizon.py computes it; for the specification: the delay of the
+    pastified monitor."""
+    h = max([py_horizon(c) for c in F.children(f)] + [Fraction(0)])
+    return h + Fraction(f[3]) * D.SCALE if f[0] == "tb1" and f[1] in ("ev", "alw") else h
+
+
+class Unaligned(Exception):
+    pass
+
+
+def start_delay(f, h=Fraction(0)):
+    """How long after the first input stamp the stream of the online operation of `f` starts when all variables start together
+    at a stamp > 0; `h` = the remaining horizon the pastifier visits the node with (rtamt/pastifier/stl/pastifier.py: a future-free
+    node of horizon nh becomes once[h-nh,h-nh] of itself, a variable once[h,h], always[a,b] phi becomes historically[0,b-a] of phi
+    visited with h-b); 0 without pastify.  None for a constant.  Raises Unaligned when the two operand streams of an operation start
+    at different instants."""
+    if f[0] == "c":
+        return None
+    if f[0] == "v":
+        return h
+    if f[0] == "tb1" and f[1] in ("ev", "alw"):
+        return start_delay(f[4], h - Fraction(f[3]) * D.SCALE)
+    nh = py_horizon(f)
+    ds = {d for d in (start_delay(c, nh) for c in F.children(f)) if d is not None}
+    if len(ds) > 1 or (f[0] == "tb2" and f[2] > 0 and ds):
+        # (bounded since with lower bound a > 0 is once[a,b] psi and historically[0,a](phi since psi) inside the operation)
+        raise Unaligned()
+    if not ds:
+        return None
+    d = ds.pop() + (h - nh)
+    return d + Fraction(f[2]) * D.SCALE if f[0] == "tb1" else d
+
+
+def aligned(f, pastify):
+    try:
+        start_delay(f, py_horizon(f) if pastify else Fraction(0))
+        return True
+    except Unaligned:
+        return False
+
+
+def gen_shifted(rng):
+    """(formula, signals shifted by SHIFT, pastify?).  Bounded once / historically / since and pastified bounded always /
+    eventually, lower bound 0 preferred, alone, nested and under an operation with a second operand; sampling gaps 1/8 .. 1."""
+    x, y = ("v", "x"), ("v", "y")
+
+    def bnd(wide=4):
+        a = 0 if rng.random() < 0.75 else rng.randint(1, 2)
+        return a, a + rng.randint(0 if a else 1, wide)
+
+    def atom():
+        r = rng.random()
+        v = rng.choice([x, x, y])
+        if r < 0.5:
+            return v
+        if r < 0.85:
+            return ("b", rng.choice(["ge", "le"]), v, ("c", rng.choice([0.0, 1.0, 2.0])))
+        return ("b", rng.choice(["add", "sub"]), v, rng.choice([x, y]))
+
+    def timed(sub):
+        a, b = bnd(8)
+        return ("tb1", rng.choice(["once", "hist"]), a, b, sub)
+
+    pastify = False
+    r = rng.random()
+    if r < 0.30:
+        f = timed(atom())
+    elif r < 0.45:
+        f = timed(timed(atom()))
+    elif r < 0.60:
+        nest = timed(atom()) if rng.random() < 0.6 else timed(timed(atom()))
+        other = rng.choice([x, y, atom()])
+        op = rng.choice(["and", "or", "implies", "iff", "xor", "add", "sub", "ge", "le"])
+        f = ("b", op, nest, other) if rng.random() < 0.5 else ("b", op, other, nest)
+    elif r < 0.72:
+        a, b = bnd(4)
+        f = ("tb2", "since", a, b, atom(), atom())
+    elif r < 0.90:
+        pastify = True
+        a = 0 if rng.random() < 0.7 else rng.randint(1, 2)
+        fut = ("tb1", rng.choice(["ev", "alw"]), a, a + rng.randint(1, 4), atom() if rng.random() < 0.7 else timed(atom()))
+        rr = rng.random()
+        if rr < 0.55:
+            f = fut
+        elif rr < 0.9:
+            # two future operators with one upper bound: both operand streams of the operation start with the input
+            a2 = rng.randint(0, fut[3] - 1)
+            f = ("b", rng.choice(["and", "or", "implies"]), fut, ("tb1", rng.choice(["ev", "alw"]), a2, fut[3], atom()))
+        else:
+            # (the pastifier delays this operand by once[h,h]: left out unless SHIFTED_ALIGNED_ONLY is off)
+            f = ("b", rng.choice(["and", "or", "implies"]), rng.choice([atom(), timed(atom())]), fut)
+    else:
+        g = D.DGen(rng, D.VARS[:2], D.DENSE_ON, max_bound=rng.choice([2, 4]))
+        f = g.formula(rng.choice([1, 2]))
+    vs = F.variables(f) or ["x"]
+    if rng.random() < 0.3:
+        sig = D.window_signals(rng, vs)
+        sig = {v: s_[:rng.randint(3, 8)] for v, s_ in sig.items()}
+    else:
+        sig = {v: D.gen_signal(rng, 0, nmax=rng.choice([3, 4, 6, 8])) for v in vs}
+        for v in vs:
+            while len(sig[v]) < 3:
+                sig[v] = sig[v] + [(sig[v][-1][0] + D.GRID * rng.choice([1, 2, 4, 8]), rng.choice((-1.0, 0.0, 1.0, 2.0)))]
+    end = max(s_[-1][0] for s_ in sig.values())
+    for v in vs:
+        if sig[v][-1][0] < end:
+            sig[v] = sig[v] + [(end, rng.choice((-1.0, 0.0, 1.0, 2.0)))]
+    return f, shift_signals(sig), pastify
+
+
+def shifted_runs(f, sig, pastify):
+    """What does not depend on the chunking: the run fed in one update and (where it is a reference) the offline robustness."""
+    text, base = D.run_online(f, sig, [], pastify=pastify)
+    off = D.eval_offline(f, sig)[1] if offline_comparable(f) else None
+    return text, base, off
+
+
+def check_shifted(ctx, f, sig, cuts, pastify, runs=None):
+    text, base, off = runs or shifted_runs(f, sig, pastify)
+    _, out = D.run_online(f, sig, cuts, pastify=pastify)
+    h = py_horizon(f) if pastify else Fraction(0)
+    rep = {"kind": "shifted", "monitor": "onc", "spec": text, "formula": F.to_proto(f), "signals": D.sig_rep(sig),
+           "cuts": cuts_txt(cuts), "pastify": pastify, "horizon": str(h), "shift": str(SHIFT), "impl": out, "impl_one_update": base,
+           "impl_offline": off}
+    st = "on-c/shifted"
+    if base[0] != "ok":
+        return None
+    if out[0] != "ok":
+        return Violation("dense online update() raised %r with cuts %s, not when fed in one update (signals starting at %s): %s"
+                         % (out[1:], rep["cuts"], SHIFT, text), rep, stream=st)
+    sa = D.samples_of([p for chunk in out[1] for p in chunk])
+    sb = D.samples_of([p for chunk in base[1] for p in chunk])
+    if any(b < a for (a, _), (b, _) in zip(sa, sa[1:])):
+        return Violation("concatenated online output has decreasing time stamps %r (cuts %s): %s"
+                         % ([str(t - SHIFT) for t, _ in sa], rep["cuts"], text), rep, stream=st)
+    # two chunkings never disagree at an instant both cover: against the run fed in one update
+    if sa and sb:
+        lo, hi = max(sa[0][0], sb[0][0]), min(sa[-1][0], sb[-1][0])
+        d = D.step_equal(sa, sb, lo, hi) if lo <= hi else None
+        if d:
+            return Violation("dense online on signals starting at %s: value at t=%s+%s is %r with cuts %s and %r when everything is "
+                             "fed in one update: %s" % (SHIFT, SHIFT, d[0] - SHIFT, d[1], rep["cuts"], d[2], text), rep, stream=st)
+    # agreement with the dense offline robustness (h later after pastify) at every time the output covers
+    if off is not None and off[0] == "ok" and sa:
+        ref = [(t + h, v) for (t, v) in D.samples_of(off[1])]
+        end = max(s_[-1][0] for s_ in sig.values())
+        if ref:
+            lo, hi = max(sa[0][0], ref[0][0]), min(sa[-1][0], end)
+            d = D.step_equal(sa, ref, lo, hi) if lo <= hi else None
+            if d:
+                return Violation("dense online on signals starting at %s (cuts %s): value at t=%s+%s is %r, the offline robustness "
+                                 "at t-%s is %r: %s" % (SHIFT, rep["cuts"], SHIFT, d[0] - SHIFT, d[1], h, d[2], text), rep, stream=st)
+            ctx.count("on-c/shifted:vs-offline")
+    vs_ = [v for _, v in sa]
+    if sum(1 for c in out[1] if c) >= 2 and (any(v not in (common.INF, -common.INF) for v in vs_) or len(set(vs_)) > 1):
+        ctx.nontrivial.add(("shifted", text, str(rep["signals"]), str(rep["cuts"])))
+    return None
+
+
+def shrink_shifted(ctx, f, sig, cuts, pastify, v0, budget=60):
+    """Greedy: fewer cuts, fewer samples, a smaller formula - as long as the case still fails."""
+    scratch = Ctx(ctx.id, ctx.tier, ctx.seed)
+    steps = [0]
+
+    def fails(f2, sig2, cuts2):
+        steps[0] += 1
+        if any(len(s_) < 1 for s_ in sig2.values()) or set(F.variables(f2)) - set(sig2):
+            return None
+        try:
+            return check_shifted(scratch, f2, {v: sig2[v] for v in (F.variables(f2) or sorted(sig2)[:1])}, cuts2, pastify)
+        except common.HarnessError:
+            return None
+    best, improved = v0, True
+    while improved and steps[0] < budget:
+        improved = False
+        cands = []
+        if isinstance(cuts, dict):
+            ts = sorted({c for k_, cs in cuts.items() if not k_.startswith("@") for c in cs})
+            cands.append((f, sig, ts))
+        else:
+            cands += [(f, sig, cuts[:i] + cuts[i + 1:]) for i in range(len(cuts)) if len(cuts) > 1]
+        for v in sorted(sig):
+            cands += [(f, dict(sig, **{v: sig[v][:i] + sig[v][i + 1:]}), cuts) for i in range(len(sig[v]) - 1, -1, -1) if len(sig[v]) > 1]
+        if not pastify:
+            cands += [(g, sig, cuts) for g in F.shrink_candidates(f) if g[0] not in ("c",)]
+        for (f2, sig2, cuts2) in cands:
+            if steps[0] >= budget:
+                break
+            if not isinstance(cuts2, dict):
+                stamps = {t for s_ in sig2.values() for (t, _) in s_}
+                cuts2 = [c for c in cuts2 if c in stamps]
+            w = fails(f2, sig2, cuts2)
+            if w is not None:
+                f, sig, cuts, best, improved = f2, {v: sig2[v] for v in (F.variables(f2) or sorted(sig2)[:1])}, cuts2, w, True
+                break
+    return best
+
+
+def shifted_stream(ctx, rng, count):
+    for _ in range(count):
+        f, sig, pastify = gen_shifted(rng)
+        if SHIFTED_ALIGNED_ONLY and not aligned(f, pastify):
+            ctx.count("on-c/shifted:left-out(operands-of-an-operation-start-at-different-instants)")
+            continue
+        runs = shifted_runs(f, sig, pastify)
+        allc = [c for c in chunkings(rng, sig, 16) if c]
+        one_by_one = allc[0]                      # one time stamp per update
+        rest = allc[1:]
+        for cuts in [[], one_by_one] + rng.sample(rest, min(3, len(rest))):      # [] = everything in one update
+            ctx.evaluations += 1
+            ctx.count("stream:on-c/shifted")
+            ctx.count("on-c/shifted:" + ("pastified" if pastify else "bounded-since" if region_since({"f": f}) else "bounded-past"
+                                         if has(f, lambda g: g[0] == "tb1") else "other"))
+            v = check_shifted(ctx, f, sig, cuts, pastify, runs)
+            if v is None:
+                ctx.traces_validated += 1
+                continue
+            ctx.violations.append(shrink_shifted(ctx, f, sig, cuts, pastify, v))
+            if len(ctx.violations) >= 3:
+                return
+            break
+
+
 def run(ctx):
     explore(ctx, ctx.subrng("on-c"), ctx.budget(560, 3600))
     if not ctx.violations:
         modular_stream(ctx, ctx.subrng("on-c/modular"), ctx.budget(60, 500))
     if not ctx.violations:
         pastified_stream(ctx, ctx.subrng("on-c/pastified"), ctx.budget(60, 500))
+    if not ctx.violations:
+        shifted_stream(ctx, ctx.subrng("on-c/shifted"), ctx.budget(120, 900))
 
 
 def search(ctx):
